@@ -206,6 +206,30 @@ pub fn run(rec: &mut Recorder, w: &mut World, tier: &str, seed: u64) {
             rec.nontrivial_case(&format!("failing-reload|{}|{}", c.name, descr.join("|")));
         }
     }
+    // ---- the installed role manager edited through the caller's handle (a stray link, or emptied) and then handed to
+    //      set_role_manager again: that call rebuilds, so from there on an explicit rebuild changes nothing ----
+    let n_hand = (if tier == "thorough" { 200 } else { 20 }) * rec.budget as usize;
+    for c in cfgs.iter().filter(|c| !c.shared_names) {
+        for hi in 0..n_hand {
+            rec.begin();
+            new_enforcer(rec, w, &c.model, "memory", &[], "", false);
+            let mut descr = vec![];
+            for _ in 0..1 + rng.below(4) { let (gk, gu) = rng.pick(&c.g_rules).clone(); let op = MOp::Add(s("g"), gk, rng.pick(&gu).clone()); rec.exec(w, &op.line()); descr.push(op.line().replace('\t', " ")); }
+            if !c.p_rules.is_empty() { let op = MOp::Add(s("p"), s("p"), rng.pick(&c.p_rules).clone()); rec.exec(w, &op.line()); descr.push(op.line().replace('\t', " ")); }
+            rec.exec(w, "e.keeprm");
+            if hi % 3 == 2 { rec.exec(w, "e.rmh\tclear"); descr.push(s("handle.clear()")); }
+            else { for _ in 0..1 + rng.below(2) { let (_, gu) = rng.pick(&c.g_rules).clone(); let r = rng.pick(&gu).clone();
+                let dom = if r.len() > 2 { esc(&r[2]) } else { s("-") };
+                rec.exec(w, &format!("e.rmh\tadd\t{}\t{}\t{}", esc(&r[0]), esc(&r[1]), dom)); descr.push(format!("handle.add_link({:?})", r)); } }
+            let o = rec.exec(w, "e.setrm\tkept"); descr.push(format!("set_role_manager(the same handle) -> {}", o));
+            let before = snapshot(rec, w, c);
+            let b = rec.exec(w, "e.build");
+            let after = snapshot(rec, w, c);
+            if b == "ok" && before != after { rec.fail("stale-role-links", format!("[{}] build_role_links changed decisions / role queries after: {} :: before {} after {}", c.name, descr.join(" ; "), before, after)); }
+            rec.count("handle-edited-and-handed-back");
+            rec.nontrivial_case(&format!("handed-back|{}|{}", c.name, descr.join("|")));
+        }
+    }
     // ---- construction: the model handed to the constructor already holds rules (an adapter-level filtered
     //      load) and the adapter reports is_filtered, so the constructor does not load: the graph must still
     //      reflect the grouping rules the enforcer now stores ----
